@@ -82,7 +82,15 @@ def arg_shape(e, depth=0, env=None):
             return None
     if isinstance(e, ast.Attribute) and e.attr == 'TM':
         return (Aff(4), Aff(4))
+    if isinstance(e, ast.Attribute) and isinstance(e.value, ast.Name) and e.value.id == 'self' and e.attr in WHOLE_TABLES:
+        # a per-joint table of the object passed whole: its joint extent is the object's number of joints
+        return tuple(Aff(x) if isinstance(x, int) else Aff.sym(x) for x in WHOLE_TABLES[e.attr])
     return None
+
+
+# per-joint tables of class Arm (shapes established by its constructor; C05 R05.x keeps them in step with num_dof)
+WHOLE_TABLES = {'screw_list': (6, 'self.num_dof'), 'screw_list_body': (6, 'self.num_dof'), 'original_screw_list': (6, 'self.num_dof'),
+                '_theta': ('self.num_dof',), 'joint_mins': ('self.num_dof',), 'joint_maxs': ('self.num_dof',)}
 
 
 def to_aff(e):
@@ -146,12 +154,15 @@ def site_check(k, c, contract, env):
                     conflict = ('extent `%s` of the contract is %r according to %s but %r according to %s: the kernel '
                                 'indexes %d element(s) past the shorter argument' % (sname, prev, parg, val, src(a)[:50], abs(diff.c)))
                 elif not diff.is_const():
-                    whole = [x for x in (prev, val) if len(x.t) == 1 and next(iter(x.t)).startswith('len(') and x.c == 0]
+                    whole = [x for x in (prev, val) if len(x.t) == 1 and (next(iter(x.t)).startswith('len(') or next(iter(x.t)) == 'self.num_dof') and x.c == 0
+                             and next(iter(x.t.values())) == 1]
                     if len(whole) == 1:
                         other = val if whole[0] is prev else prev
-                        conflict = ('extent `%s` of the contract is %r for one argument, while %s is passed whole (its length is whatever the caller '
-                                    'supplied): the kernel loops over the longer of the two and indexes past the %r-wide slice whenever the '
-                                    'vector is longer' % (sname, other, next(iter(whole[0].t))[4:-1], other))
+                        wname = next(iter(whole[0].t))
+                        conflict = ('extent `%s` of the contract is %r for one argument, while %s is passed whole (%s): the kernel loops over the longer of the '
+                                    'two and indexes past the %r-wide slice whenever the whole one is longer' % (
+                                        sname, other, wname[4:-1] if wname.startswith('len(') else 'a per-joint table of the arm',
+                                        'its length is whatever the caller supplied' if wname.startswith('len(') else 'extent self.num_dof', other))
                     else:
                         unres.append('cannot compare %r and %r' % (prev, val))
             else:
